@@ -350,6 +350,65 @@ func runC07(c *core.Ctx) {
 			})
 		}
 	}
+	// key rollover: every sequence of <= 3 re-keyings of the IdP (same entity ID, the SP object kept and handed the re-published metadata)
+	// or of the SP (the IdP object kept, registration replaced); after every step a fresh login must round-trip exactly.
+	c.Group("rollover-sequences")
+	idpKeys := []struct{ k, m string }{{"idp1", dsig.RSASHA256SignatureMethod}, {"idp2", ""}, {"idpec", dsig.ECDSASHA256SignatureMethod}}
+	spKeys := []string{"sp2048", "sp4096", "sp3072"}
+	for _, who := range []string{"idp", "sp"} {
+		for _, enc := range []bool{false, true} {
+			if who == "sp" && !enc {
+				continue // without a published certificate the SP key plays no part
+			}
+			for n := 0; n < 27; n++ {
+				seq := []int{n % 3, (n / 3) % 3, n / 9}
+				who, enc, seq := who, enc, seq
+				key := fmt.Sprintf("rollover/%s/enc=%v/seq=%v", who, enc, seq)
+				c.Case(key, func(t *core.T) {
+					t.NonTrivial()
+					cf := base
+					cf.enc = enc
+					w := newWorld(cf) // a private world: this case mutates it
+					if w.err != nil {
+						t.Fail("C07/metadata-exchange/rollover", "%v", w.err)
+						return
+					}
+					for step, ki := range seq {
+						var err error
+						if who == "idp" {
+							err = w.rekeyIDP(idpKeys[ki].k, idpKeys[ki].m)
+						} else {
+							err = w.rekeySP(spKeys[ki])
+						}
+						if err != nil {
+							t.Fail("C07/rollover/metadata", "step %d: %v", step, err)
+							return
+						}
+						sess := c07Session(map[int]string{0: fmt.Sprintf("user-step%d@example.com", step)})
+						var sent, got *saml.Assertion
+						var stage string
+						_, p := guard(func() error { sent, got, stage, err = w.roundTrip(cf, sess); return nil })
+						t.Impl(3)
+						t.Compared()
+						if p != "" {
+							t.Fail("C07/panic@"+p[strings.LastIndex(p, "@")+1:], "round trip panicked: %s", p)
+							return
+						}
+						if err != nil {
+							t.Outcome("fail:" + stage)
+							t.Fail("C07/rollover/roundtrip-fails-after-"+who+"-rekey/"+stage, "%s: after re-keying step %d (sequence %v) a fresh login fails at %s: %s", key, step, seq, stage, privErr(err))
+							return
+						}
+						if got.Subject == nil || got.Subject.NameID == nil || got.Subject.NameID.Value != sess.NameID || strings.Join(attrList(sent), "\n") != strings.Join(attrList(got), "\n") {
+							t.Fail("C07/rollover/identity-altered", "%s: step %d returned a different identity", key, step)
+						}
+					}
+					t.Outcome("ok")
+				})
+			}
+		}
+	}
+
 	c.Group("configurations")
 	var cfgs []c07Cfg
 	for _, enc := range []bool{false, true} {
@@ -376,6 +435,41 @@ func runC07(c *core.Ctx) {
 			})
 		}
 	}
+}
+
+// rekeyIDP gives the world's IdP a new key pair (same entity ID) and hands the SAME ServiceProvider object the re-published metadata.
+func (w *c07World) rekeyIDP(key, method string) error {
+	kp := samlgen.Key(key)
+	w.idp.Key, w.idp.Signer, w.idp.Certificate, w.idp.SignatureMethod = kp.Key, nil, kp.Cert, method
+	if key == "idpec" {
+		w.idp.Signer, w.idp.Key = kp.Key, nil
+	}
+	ib, err := xml.Marshal(w.idp.Metadata())
+	if err != nil {
+		return err
+	}
+	var idpMD saml.EntityDescriptor
+	if err := xml.Unmarshal(ib, &idpMD); err != nil {
+		return err
+	}
+	w.sp.IDPMetadata = &idpMD
+	return nil
+}
+
+// rekeySP gives the SP a new key pair and re-registers its re-published metadata with the SAME IdentityProvider object.
+func (w *c07World) rekeySP(key string) error {
+	kp := samlgen.Key(key)
+	w.sp.Key, w.sp.Certificate = kp.Key, kp.Cert
+	sb, err := xml.Marshal(w.sp.Metadata())
+	if err != nil {
+		return err
+	}
+	var spMD saml.EntityDescriptor
+	if err := xml.Unmarshal(sb, &spMD); err != nil {
+		return err
+	}
+	w.idp.ServiceProviderProvider = harness.SPRegistry{spMD.EntityID: &spMD}
+	return nil
 }
 
 // crClass classifies a session by where a carriage return occurs: in a string serialised as element
